@@ -569,3 +569,183 @@ Proof.
   - change (cenc e t (VRec l) = cenc_fields e (ftyp_of fs) l 0).
     rewrite cenc_rec_eq, Es. reflexivity.
 Qed.
+
+(** * Skipping: thrift.Skip over the compact protocol consumes exactly the encoding of any
+      well-typed value, and leaves no bool pending *)
+Definition csk_ok (e : env) (w : val) : Prop :=
+  forall t fuel depth rest, wwt e t w -> (wsize w <= fuel)%nat -> wdepth w <= depth ->
+  cskip fuel depth (wtype e t) (None, cenc e t w ++ rest) = Ok (None, rest).
+
+Lemma cskip_field_st e ft x fuel depth rest :
+  csk_ok e x -> wwt e ft x -> (wsize x <= fuel)%nat -> wdepth x <= depth ->
+  cskip fuel depth (wtype e ft) (field_st e ft x rest) = Ok (None, rest).
+Proof.
+  intros Hsk Hw Hf Hd. destruct x; try (apply Hsk; assumption).
+  cbn [field_st]. rewrite (wwt_bool_wtype e ft b Hw).
+  destruct fuel as [|f]; [cbn in Hf; lia|]. cbn [wdepth] in Hd.
+  cbn [cskip]. destruct (depth <=? 0) eqn:E; [apply Z.leb_le in E; lia|]. reflexivity.
+Qed.
+
+Lemma cskip_seq_ok e et l :
+  Forall (csk_ok e) l -> Forall (wwt e et) l ->
+  forall fuel depth rest, (size_seq l <= fuel)%nat -> depth_seq l <= depth ->
+  cskip_seq fuel depth (wtype e et) (zlen l) (None, cenc_seq e et l ++ rest) = Ok (None, rest).
+Proof.
+  intros Hsk Hwt. induction l as [|x r IH]; intros fuel depth rest Hf Hd.
+  - destruct fuel; reflexivity.
+  - inversion Hsk as [|? ? Hx Hr]; subst. inversion Hwt as [|? ? Wx Wr]; subst.
+    cbn [size_seq] in Hf. cbn [depth_seq] in Hd. destruct fuel as [|f]; [lia|].
+    cbn [cskip_seq]. rewrite zlen_cons.
+    pose proof (zlen_nonneg r) as Hz.
+    destruct (1 + zlen r <=? 0) eqn:E; [apply Z.leb_le in E; lia|].
+    cbn [cenc_seq]. rewrite <- app_assoc.
+    rewrite (Hx et f depth _ Wx) by lia. cbn [bind].
+    replace (1 + zlen r - 1) with (zlen r) by lia.
+    apply (IH Hr Wr f depth rest); lia.
+Qed.
+
+Lemma cskip_pairs_ok e kt vt l :
+  Forall (fun kv => csk_ok e (fst kv) /\ csk_ok e (snd kv)) l ->
+  Forall (fun kv => wwt e kt (fst kv) /\ wwt e vt (snd kv)) l ->
+  forall fuel depth rest, (size_pairs l <= fuel)%nat -> depth_pairs l <= depth ->
+  cskip_pairs fuel depth (wtype e kt) (wtype e vt) (zlen l) (None, cenc_pairs e kt vt l ++ rest) = Ok (None, rest).
+Proof.
+  intros Hsk Hwt. induction l as [|[a b] r IH]; intros fuel depth rest Hf Hd.
+  - destruct fuel; reflexivity.
+  - inversion Hsk as [|? ? [Ha Hb] Hr]; subst. inversion Hwt as [|? ? [Wa Wb] Wr]; subst.
+    cbn [fst snd] in *.
+    cbn [size_pairs] in Hf. cbn [depth_pairs] in Hd. destruct fuel as [|f]; [lia|].
+    cbn [cskip_pairs]. rewrite zlen_cons.
+    pose proof (zlen_nonneg r) as Hz.
+    destruct (1 + zlen r <=? 0) eqn:E; [apply Z.leb_le in E; lia|].
+    cbn [cenc_pairs]. rewrite <- !app_assoc.
+    rewrite (Ha kt f depth _ Wa) by lia. cbn [bind].
+    rewrite (Hb vt f depth _ Wb) by lia. cbn [bind].
+    replace (1 + zlen r - 1) with (zlen r) by lia.
+    apply (IH Hr Wr f depth rest); lia.
+Qed.
+
+Lemma cskip_fields_ok e ftyp l :
+  Forall (fun ix => csk_ok e (snd ix)) l -> Forall (wwt_entry_by e ftyp) l ->
+  forall fuel depth last rest, in_range 2 last -> (size_fields l <= fuel)%nat -> depth_fields l <= depth ->
+  cskip_fields fuel depth last (None, cenc_fields e ftyp l last ++ rest) = Ok (None, rest).
+Proof.
+  intros Hsk Hwt. induction l as [|[i x] r IH]; intros fuel depth last rest Hl Hf Hd.
+  - cbn [size_fields] in Hf. destruct fuel as [|f]; [lia|].
+    cbn [cskip_fields cenc_fields]. rewrite c_field_hdr_stop. reflexivity.
+  - inversion Hsk as [|? ? Hx Hr]; subst. inversion Hwt as [|? ? [Wi Wx] Wr]; subst.
+    cbn [fst snd] in *.
+    cbn [size_fields] in Hf. cbn [depth_fields] in Hd. destruct fuel as [|f]; [lia|].
+    destruct (ftyp i) as [ft|] eqn:Eft; [|contradiction].
+    cbn [cskip_fields cenc_fields]. rewrite Eft. rewrite <- app_assoc.
+    rewrite c_field_hdr_field by assumption. cbn [bind].
+    rewrite (wtype_pos _ _ _ Wx).
+    rewrite cskip_field_st by (assumption || lia). cbn [bind].
+    apply (IH Hr Wr f depth i rest); assumption || lia.
+Qed.
+
+Lemma cskip_cenc e : forall w, csk_ok e w.
+Proof.
+  induction w using val_ind'; unfold csk_ok; intros t fuel depth rest Hwt Hf Hd.
+  - cbn [wwt] in Hwt. destruct fuel as [|f]; [cbn in Hf; lia|].
+    cbn [wdepth] in Hd. unfold wtype. rewrite Hwt. cbn [wtype_of_shape cskip cenc].
+    destruct (depth <=? 0) eqn:E; [apply Z.leb_le in E; lia|].
+    destruct b; reflexivity.
+  - cbn [wwt] in Hwt. destruct fuel as [|f]; [cbn in Hf; lia|].
+    cbn [wdepth] in Hd. unfold wtype. cbn [cenc]. cbv zeta.
+    destruct (shape_of e t) eqn:E; try contradiction.
+    + destruct Hwt as [Hn Hr]. cbn [wtype_of_shape cskip].
+      destruct (depth <=? 0) eqn:E1; [apply Z.leb_le in E1; lia|].
+      destruct Hn as [-> | [-> | [-> | ->]]]; cbn [Z.eqb Pos.eqb cenc_int].
+      * rewrite c_i8_ok by assumption. reflexivity.
+      * rewrite c_i16_ok by assumption. reflexivity.
+      * rewrite c_i32_ok by assumption. reflexivity.
+      * rewrite c_i64_ok by assumption. reflexivity.
+    + cbn [wtype_of_shape cskip cenc_int].
+      destruct (depth <=? 0) eqn:E1; [apply Z.leb_le in E1; lia|].
+      cbn [Z.eqb Pos.eqb]. rewrite c_i32_ok by assumption. reflexivity.
+  - cbn [wwt] in Hwt. destruct Hwt as [Hs Hr]. destruct fuel as [|f]; [cbn in Hf; lia|].
+    cbn [wdepth] in Hd. unfold wtype. rewrite Hs. cbn [wtype_of_shape cskip cenc].
+    destruct (depth <=? 0) eqn:E1; [apply Z.leb_le in E1; lia|].
+    cbn [Z.eqb Pos.eqb]. rewrite c_double_ok by assumption. reflexivity.
+  - cbn [wwt] in Hwt. destruct Hwt as [Hs Hl]. destruct fuel as [|f]; [cbn in Hf; lia|].
+    cbn [wdepth] in Hd. unfold wtype. cbn [cenc]. rewrite <- app_assoc.
+    destruct Hs as [-> | ->]; cbn [wtype_of_shape cskip];
+      (destruct (depth <=? 0) eqn:E1; [apply Z.leb_le in E1; lia|]);
+      cbn [Z.eqb Pos.eqb]; rewrite c_blob_ok by assumption; reflexivity.
+  - apply wwt_list in Hwt. destruct Hwt as [et [Hs [Hl Hall]]].
+    rewrite wsize_list in Hf. rewrite wdepth_list in Hd. destruct fuel as [|f]; [lia|].
+    rewrite cenc_list_eq. unfold wtype at 1. rewrite Hs. cbn [elem_ty wtype_of_shape cskip].
+    pose proof (zlen_nonneg l) as Hz.
+    assert (0 <= depth_seq l) by (clear; induction l; cbn [depth_seq]; lia).
+    destruct (depth <=? 0) eqn:E1; [apply Z.leb_le in E1; lia|].
+    cbn [Z.eqb Pos.eqb orb]. rewrite <- app_assoc. rewrite c_list_hdr_ok by lia. cbn [bind].
+    apply (cskip_seq_ok e et l H Hall f); lia.
+  - apply wwt_set in Hwt. destruct Hwt as [et [Hs [Hl Hall]]].
+    rewrite wsize_set in Hf. rewrite wdepth_set in Hd. destruct fuel as [|f]; [lia|].
+    rewrite cenc_set_eq. unfold wtype at 1. rewrite Hs. cbn [elem_ty wtype_of_shape cskip].
+    pose proof (zlen_nonneg l) as Hz.
+    assert (0 <= depth_seq l) by (clear; induction l; cbn [depth_seq]; lia).
+    destruct (depth <=? 0) eqn:E1; [apply Z.leb_le in E1; lia|].
+    cbn [Z.eqb Pos.eqb orb]. rewrite <- app_assoc. rewrite c_list_hdr_ok by lia. cbn [bind].
+    apply (cskip_seq_ok e et l H Hall f); lia.
+  - apply wwt_map in Hwt. destruct Hwt as [kt [vt [Hs [Hl Hall]]]].
+    rewrite wsize_map in Hf. rewrite wdepth_map in Hd. destruct fuel as [|f]; [lia|].
+    rewrite cenc_map_eq. unfold wtype at 1. rewrite Hs. cbn [key_ty mval_ty wtype_of_shape cskip].
+    pose proof (zlen_nonneg l) as Hz.
+    assert (0 <= depth_pairs l) by (clear; induction l as [|[a b] r]; cbn [depth_pairs]; lia).
+    destruct (depth <=? 0) eqn:E1; [apply Z.leb_le in E1; lia|].
+    cbn [Z.eqb Pos.eqb orb]. rewrite <- app_assoc.
+    destruct (c_map_hdr_ok None e kt vt (zlen l) (cenc_pairs e kt vt l ++ rest) ltac:(lia)) as [k [v [Hh Hkv]]].
+    rewrite Hh. cbn [bind].
+    destruct l as [|p0 r0].
+    + destruct f; reflexivity.
+    + rewrite zlen_cons in Hkv. destruct Hkv as [-> ->]; [pose proof (zlen_nonneg r0); lia|].
+      apply (cskip_pairs_ok e kt vt (p0 :: r0) H Hall f); lia.
+  - cbn [wwt] in Hwt. contradiction.
+  - pose proof (wwt_rec_by _ _ _ Hwt) as Hall.
+    apply wwt_rec in Hwt. destruct Hwt as [k [decls [Hs _]]].
+    rewrite wsize_rec in Hf. rewrite wdepth_rec in Hd. destruct fuel as [|f]; [lia|].
+    rewrite cenc_rec_eq. unfold wtype. rewrite Hs. cbn [wtype_of_shape cskip].
+    assert (0 <= depth_fields l) by (clear; induction l as [|[a b] r]; cbn [depth_fields]; lia).
+    destruct (depth <=? 0) eqn:E1; [apply Z.leb_le in E1; lia|].
+    cbn [Z.eqb Pos.eqb orb]. rewrite Hs in Hall. cbn [struct_fields].
+    apply (cskip_fields_ok e _ l H Hall f (depth - 1) 0 rest in_range_2_0); lia.
+Qed.
+
+Theorem compact_skip_exact e w t fuel depth rest :
+  wwt e t w -> (wsize w <= fuel)%nat -> wdepth w <= depth ->
+  cskip fuel depth (wtype e t) (None, cenc e t w ++ rest) = Ok (None, rest).
+Proof. intros; apply cskip_cenc; assumption. Qed.
+
+(** * Unknown fields are skipped under compact: a reader with declarations [decls] decodes what a
+      writer with the larger schema [ftyp] wrote, dropping exactly the fields it does not declare;
+      both sides keep the same lastFieldId (every header read, known or not, updates it) *)
+Lemma compact_unknown_fields_skipped e decls ftyp l :
+  (forall id ft, ftyp_of decls id = Some ft -> ftyp id = Some ft) ->
+  Forall (wwt_entry_by e ftyp) l ->
+  Forall (fun ix => wdepth (snd ix) <= 64) l ->
+  forall fuel last rest, in_range 2 last -> (size_fields l <= fuel)%nat ->
+  cdec_fields fuel e decls last (None, cenc_fields e ftyp l last ++ rest) = Ok (filter (known decls) l, (None, rest)).
+Proof.
+  intros Hagree Hwt Hdep. induction l as [|[i x] r IH]; intros fuel last rest Hl Hf.
+  - cbn [size_fields] in Hf. destruct fuel as [|f]; [lia|].
+    cbn [cdec_fields cenc_fields filter]. rewrite c_field_hdr_stop. reflexivity.
+  - inversion Hwt as [|? ? [Wi Wx] Wr]; subst. inversion Hdep as [|? ? Dx Dr]; subst.
+    cbn [fst snd] in *.
+    cbn [size_fields] in Hf. destruct fuel as [|f]; [lia|].
+    destruct (ftyp i) as [ft|] eqn:Eft; [|contradiction].
+    cbn [cdec_fields cenc_fields]. rewrite Eft. rewrite <- app_assoc.
+    rewrite c_field_hdr_field by assumption. cbn [bind].
+    rewrite (wtype_pos _ _ _ Wx).
+    cbn [filter]. unfold known at 1. cbn [fst].
+    destruct (ftyp_of decls i) as [ft'|] eqn:Ed.
+    + pose proof (Hagree _ _ Ed) as Ha. rewrite Eft in Ha. injection Ha as <-.
+      rewrite cdec_field_st by (apply cdec_cenc || assumption || lia). cbn [bind].
+      match goal with |- bind ?X _ = _ =>
+        assert (HX : X = Ok (filter (known decls) r, (None, rest))) by (apply IH; assumption || lia); rewrite HX end.
+      reflexivity.
+    + unfold cskip_default.
+      rewrite cskip_field_st by (apply cskip_cenc || assumption || lia). cbn [bind].
+      apply (IH Wr Dr f i rest); assumption || lia.
+Qed.
